@@ -352,6 +352,56 @@ fn other_decoders(w: &World, rng: &mut Rng, frames: &[Frame], trace: &mut Trace,
                 .and_then(|s| s.parse::<DocTicket>().map_err(|e| e.to_string())), trace, sum);
         }
     }
+    // keys (src/keys.rs): byte and text forms of secrets and ids give the same key back; ids take any 32 bytes
+    for i in 0..12u8 {
+        let mut b = [0u8; 32];
+        for x in b.iter_mut() {
+            *x = rng.below(256) as u8;
+        }
+        if i == 0 {
+            b = [0u8; 32];
+        }
+        if i == 1 {
+            b = [0xFF; 32];
+        }
+        let author = iroh_docs::Author::from_bytes(&b);
+        let nss = iroh_docs::NamespaceSecret::from_bytes(&b);
+        let same_a = iroh_docs::Author::from_bytes(&author.to_bytes()).id() == author.id()
+            && author.to_string().parse::<iroh_docs::Author>().map(|x| x.to_bytes() == author.to_bytes()).unwrap_or(false);
+        let same_n = iroh_docs::NamespaceSecret::from_bytes(&nss.to_bytes()).id() == nss.id()
+            && nss.to_string().parse::<iroh_docs::NamespaceSecret>().map(|x| x.to_bytes() == nss.to_bytes()).unwrap_or(false);
+        trace.emit(json!({"ev":"RT","dec":"author_secret","same": same_a}));
+        trace.emit(json!({"ev":"RT","dec":"namespace_secret","same": same_n}));
+        // ids of real keys: bytes and text give the id back
+        for raw in [author.id().to_bytes(), nss.id().to_bytes()] {
+            let aid = iroh_docs::AuthorId::from(&raw);
+            let nid = iroh_docs::NamespaceId::from(&raw);
+            let ok_a = aid.to_bytes() == raw && aid.to_string().parse::<iroh_docs::AuthorId>().map(|x| x == aid).unwrap_or(false);
+            let ok_n = nid.to_bytes() == raw && nid.to_string().parse::<iroh_docs::NamespaceId>().map(|x| x == nid).unwrap_or(false);
+            trace.emit(json!({"ev":"RT","dec":"author_id","same": ok_a}));
+            trace.emit(json!({"ev":"RT","dec":"namespace_id","same": ok_n}));
+            sum.add("decode_calls", 2);
+        }
+        // ids of arbitrary bytes keep their bytes; their text form is parsed as a public key, which need not accept them
+        // (only "a value or an error" is asked of it)
+        {
+            let aid = iroh_docs::AuthorId::from(&b);
+            let nid = iroh_docs::NamespaceId::from(&b);
+            trace.emit(json!({"ev":"RT","dec":"author_id_bytes","same": aid.to_bytes() == b}));
+            trace.emit(json!({"ev":"RT","dec":"namespace_id_bytes","same": nid.to_bytes() == b}));
+            let t = aid.to_string();
+            fuzz_one("author_id_text", t.as_bytes(), |t| std::str::from_utf8(t).map_err(|e| e.to_string())
+                .and_then(|s| s.parse::<iroh_docs::AuthorId>().map(|_| ()).map_err(|e| e.to_string())), trace, sum);
+            fuzz_one("namespace_id_text", t.as_bytes(), |t| std::str::from_utf8(t).map_err(|e| e.to_string())
+                .and_then(|s| s.parse::<iroh_docs::NamespaceId>().map(|_| ()).map_err(|e| e.to_string())), trace, sum);
+        }
+        // and arbitrary text never panics the id parsers
+        let junk: String = (0..rng.below(70)).map(|_| *rng.pick(&['a', 'b', '2', '7', 'z', '0', 'f', '=', ' ', 'Q'])).collect();
+        fuzz_one("author_id_text", junk.as_bytes(), |t| std::str::from_utf8(t).map_err(|e| e.to_string())
+            .and_then(|s| s.parse::<iroh_docs::AuthorId>().map(|_| ()).map_err(|e| e.to_string())), trace, sum);
+        fuzz_one("namespace_id_text", junk.as_bytes(), |t| std::str::from_utf8(t).map_err(|e| e.to_string())
+            .and_then(|s| s.parse::<iroh_docs::NamespaceId>().map(|_| ()).map_err(|e| e.to_string())), trace, sum);
+    }
     // filter strings
     for s in ["prefix:utf8:abc", "exact:hex:00ff", "prefix:hex:zz", "nope", "exact:utf8:", "exact::", ":::", "prefix:hex:0"] {
         for _ in 0..3 {
